@@ -20,6 +20,7 @@ type SolveResult struct {
 	Model   string
 	Seconds float64
 	Answers map[string]string
+	ToolError string
 }
 
 type solverSpec struct {
@@ -65,6 +66,9 @@ func runSolver(ctx context.Context, s solverSpec, file string, timeoutS int) (st
 		} else {
 			first = "error"
 		}
+	}
+	if strings.Contains(text, "(error ") && first != "sat" && first != "unsat" {
+		first = "error"
 	}
 	return first, text
 }
@@ -167,6 +171,15 @@ func solveOne(e *Enc, o *Obl, opts solveOpts, idx int) *SolveResult {
 	}
 	if res.Solver == "" || res.Solver == "disagreement" {
 		ans = "unknown"
+	}
+	nerr := 0
+	for _, a := range res.Answers {
+		if a == "error" {
+			nerr++
+		}
+	}
+	if res.Solver == "" && nerr == len(res.Answers) && nerr > 0 {
+		res.ToolError = "every solver rejected the query (malformed SMT): " + o.Name
 	}
 	res.Seconds = time.Since(start).Seconds()
 	switch {
